@@ -79,6 +79,10 @@ fn main() {
         "C16" => props::c16::run(chk),
         "C17" => props::c17::run(chk),
         "C18" => props::c18::run(chk),
+        "C19" => match child_limit {
+            Some(_) => props::c19::run_child(),
+            None => props::c19::run(chk),
+        },
         "C20" => props::c20::run(chk),
         _ => infra(&format!("no check for {id}")),
     }
